@@ -637,11 +637,42 @@ class TOpt(T):
         return z3.And(fa[0] == fb[0], z3.Implies(z3.Not(fa[0]), z3.And(*[x == y for x, y in zip(fa[1:], fb[1:])])))
 
 
+def deep_wf(t, v):
+    """well-formedness of a fresh value at every depth: the lengths of lists nested in lists, dict values, optional values and
+    record fields are non-negative too (T.wf only covers the top level and records/tuples)"""
+    n = type(t).__name__
+    if n == "TList":
+        out = [v.n >= 0]
+        i = z3.FreshConst(z3.IntSort(), "wi")
+        inner = deep_wf(t.t, slist_get(v, i))
+        return out + [z3.ForAll([i], z3.Implies(z3.And(0 <= i, i < v.n), f)) for f in inner]
+    if n in ("TDict", "TDefaultDict"):
+        x = z3.FreshConst(key_sort_of(t.k), "wk")
+        inner = deep_wf(t.v, t.v.unflat([c[x] for c in v.comps]))
+        return [z3.ForAll([x], f) for f in inner]
+    if n == "TOpt":
+        return deep_wf(t.t, v.val)
+    if n == "TRec":
+        return [f for fn, ft in t.fields.items() for f in deep_wf(ft, v.fields[fn])]
+    if n == "TTuple":
+        return [f for tt, e in zip(t.ts, v) for f in deep_wf(tt, e)]
+    return list(t.wf(v))
+
+
 # --------------------------------------------------------------------------------------------
 # SList helpers
 
+def _select(c, i):
+    """c[i]; a lambda component (ranges, enumerate positions) is applied at once instead of leaving a select-of-lambda term"""
+    if z3.is_quantifier(c) and c.is_lambda() and c.num_vars() == 1:
+        ix = i if is_sym(i) else z3.IntVal(i)
+        if ix.sort() == c.var_sort(0):
+            return z3.substitute_vars(c.body(), ix)
+    return c[i]
+
+
 def slist_get(xs, i):
-    return xs.t.unflat([c[i] for c in xs.comps])
+    return xs.t.unflat([_select(c, i) for c in xs.comps])
 
 
 def slist_set(xs, i, v):
